@@ -83,7 +83,7 @@ pub fn observe_as(set: &AsBlocks) -> Obs {
 }
 
 /// One text item per block in the library's own syntax, written by the harness.
-fn as_text_items(blocks: &[(u128, u128)], rng: &mut Rng) -> Vec<String> {
+pub(crate) fn as_text_items(blocks: &[(u128, u128)], rng: &mut Rng) -> Vec<String> {
     let mut parts = Vec::new();
     for (lo, hi) in blocks {
         let pfx = *rng.pick(&["AS", "as", "", "As"]);
@@ -137,7 +137,7 @@ fn as_der_read(data: &[u8]) -> Option<Vec<(u128, u128)>> {
     Some(out)
 }
 
-fn is_canonical_input(fl: Flavour, blocks: &[(u128, u128)]) -> bool {
+pub(crate) fn is_canonical_input(fl: Flavour, blocks: &[(u128, u128)]) -> bool {
     let v: Obs = blocks.iter().map(|(a, b)| { let (x, y) = fl.embed(*a, *b); (x, y, false) }).collect();
     canonical_defect(&v, false).is_none()
 }
@@ -274,7 +274,7 @@ pub fn as_text_entry(which: usize, items: &[String], sep: &str, how: u64) -> Res
 
 /// See `c03_ip::judge_entry`.
 #[allow(clippy::too_many_arguments)]
-fn judge_as_entry(ctx: &mut Ctx, entry: &str, r: Result<AsBlocks, String>, model: &IntervalSet, reversed: bool, must_accept: bool, detail: &dyn Fn() -> Value) -> Option<AsBlocks> {
+pub(crate) fn judge_as_entry(ctx: &mut Ctx, entry: &str, r: Result<AsBlocks, String>, model: &IntervalSet, reversed: bool, must_accept: bool, detail: &dyn Fn() -> Value) -> Option<AsBlocks> {
     let fl = Flavour::As;
     let n = SKIP_TAKE_DISAGREE.with(|c| c.replace(0));
     if n > 0 {
@@ -381,13 +381,13 @@ fn as_entry_sweep(ctx: &mut Ctx, rng: &mut Rng) {
     ctx.drain_chain_hook(|| json!({"flavour": "as", "entry-sweep": blocks_json(&blocks)}));
 }
 
-struct AsCase {
-    set: AsBlocks,
-    model: IntervalSet,
-    blocks: Vec<(u128, u128)>,
+pub(crate) struct AsCase {
+    pub set: AsBlocks,
+    pub model: IntervalSet,
+    pub blocks: Vec<(u128, u128)>,
 }
 
-fn as_construct(ctx: &mut Ctx, rng: &mut Rng, seq: &Seq) -> Option<AsCase> {
+pub(crate) fn as_construct(ctx: &mut Ctx, rng: &mut Rng, seq: &Seq) -> Option<AsCase> {
     let fl = Flavour::As;
     let model = fl.model(&seq.blocks);
     let how = rng.below(7);
@@ -449,9 +449,13 @@ fn as_construct(ctx: &mut Ctx, rng: &mut Rng, seq: &Seq) -> Option<AsCase> {
 /// AS resources built with `AsResourcesBuilder`, spreading the blocks over
 /// several `blocks()` calls on the same builder (the result must be the union).
 fn as_builder_multi_call(ctx: &mut Ctx, rng: &mut Rng) {
+    let seq = sequence(Flavour::As, rng, 6);
+    as_builder_multi_call_seq(ctx, rng, &seq);
+}
+
+pub(crate) fn as_builder_multi_call_seq(ctx: &mut Ctx, rng: &mut Rng, seq: &Seq) {
     use rpki::repository::resources::AsResourcesBuilder;
     let fl = Flavour::As;
-    let seq = sequence(fl, rng, 6);
     let model = fl.model(&seq.blocks);
     let calls = 1 + rng.usize_below(3);
     let mut builder = AsResourcesBuilder::new();
@@ -521,7 +525,7 @@ fn sample_points(a: &IntervalSet, b: &IntervalSet, max: u128) -> Vec<u128> {
     pts
 }
 
-fn as_unary(ctx: &mut Ctx, c: &AsCase) {
+pub(crate) fn as_unary(ctx: &mut Ctx, c: &AsCase) {
     let fl = Flavour::As;
     let blocks = &c.blocks;
     let d = || json!({"blocks": blocks_json(blocks)});
@@ -652,7 +656,7 @@ fn as_unary(ctx: &mut Ctx, c: &AsCase) {
     ctx.drain_chain_hook(|| json!({"flavour": "as", "unary-on": blocks_json(blocks)}));
 }
 
-fn as_pair(ctx: &mut Ctx, a: &AsCase, b: &AsCase) {
+pub(crate) fn as_pair(ctx: &mut Ctx, a: &AsCase, b: &AsCase) {
     let fl = Flavour::As;
     let rel = relation(&a.model, &b.model);
     if rel != "both-empty" {
@@ -800,4 +804,6 @@ pub fn run(ctx: &mut Ctx) {
     run_small_exhaustive(ctx);
     run_as(ctx);
     crate::c03_ip::run_ip(ctx);
+    crate::c03_long::run_long(ctx);
+    crate::c03_serde::run_serde(ctx);
 }
